@@ -80,7 +80,7 @@ struct ApiRun {
 
     NameRef gen_name(Rng &r, bool allow_invalid); NameRef gen_code(Rng &r, bool allow_invalid);
     ustr name_str(const NameRef &n, bool simple) const; ustr code_str(const NameRef &n, bool simple) const;
-    int pick_cif(uint32_t x); int pick_cont(uint32_t x, bool need_free_cif); int pick_loop(uint32_t x, bool need_free_cif, bool allow_stale);
+    int pick_cif(uint32_t x); int pick_cont(uint32_t x, bool need_free_cif); int pick_cont_beside_iter(uint32_t x); int pick_loop(uint32_t x, bool need_free_cif, bool allow_stale);
     MCont *mcont(int slot); MLoop *mloop(int slot); bool loop_stale(int slot);
     int add_cont(cif_container_tp *h, int cif, uint64_t uid); int add_loop(cif_loop_tp *h, int cif, uint64_t cont_uid, uint64_t loop_uid, int via);
     void free_loop_slot(int i); void free_cont_slot(int i); void close_iter_of_loop(int loop_slot);
